@@ -44,6 +44,14 @@ func oamProgram(rng *rand.Rand, n int) []int {
 			emit(0x3e, rng.Intn(256))
 		case 12:
 			emit(0x08, rng.Intn(256), 0xfe) // LD (FExx),SP
+		case 14:
+			// writes to the LCD registers (LY and STAT's low bits are read-only, the others plain storage): none of them
+			// arms or disarms anything; LCDC itself now and then, which switches the LCD under the program's feet
+			r := []int{0x44, 0x41, 0x45, 0x42, 0x43, 0x44, 0x47, 0x48, 0x49, 0x4a, 0x4b, 0x44}[rng.Intn(12)]
+			if rng.Intn(12) == 0 {
+				r = 0x40
+			}
+			emit(0x3e, rng.Intn(256), 0xe0, r)
 		case 13:
 			if rng.Intn(3) == 0 {
 				emit(0x3e, 0xc0+rng.Intn(0x20), 0xe0, 0x46) // start an OAM DMA from work RAM
